@@ -46,7 +46,7 @@ def run(ctx):
     roots = [prog.one(r) for r in ROOTS]
     scope = prog.reachable_bodies([r.path for r in roots])
     ctx.counters["bodies_in_scope"] = len(scope)
-    ctx.floor("S1", "bodies_in_scope", len(scope), 60)
+    ctx.floor("S1", "bodies_in_scope", len(scope), 30)
 
     # ------------------------------------------------------------------ S1
     ctx.rule("S1", "entropy only when no seed is given; seeded generator = seed_from_u64(payload); all rand use goes through the factories")
@@ -99,7 +99,7 @@ def run(ctx):
                     if tt.callee and tt.callee.target_path(prog) in factories:
                         ok = True
         ctx.require(ok, "S1", "use|%s|%s" % (b.short, nm.split("::")[-1]), "%s in %s draws from a factory-made generator" % (nm.split("::")[-1], b.short.split("::")[-1]), "%s in %s draws from a generator that does not come from get_rng / get_random_number_generator" % (nm, b.short), loc_str(t.span))
-    ctx.floor("S1", "rand_uses", n_use, 3)
+    ctx.floor("S1", "rand_uses", n_use, 2)
 
     # ------------------------------------------------------------------ S2 / S3
     ctx.rule("S2", "no hash-order-sensitive selection or sequence on the seeded paths (ORDER sites must be reviewed)")
@@ -127,7 +127,7 @@ def run(ctx):
                 ctx.violation("S2", key, "hash-order-sensitive use of a RandomState container on a seeded path in %s: %s -- two runs with the same seed can differ" % (s.body.short, "; ".join(x[2] for x in s.consumers)[:300]), loc_str(s.create.span))
     ctx.counters["random_hash_sites_in_scope"] = n_random
     ctx.counters["float_sites"] = floats
-    ctx.floor("S2", "random_hash_sites_in_scope", n_random, 10)
+    ctx.floor("S2", "random_hash_sites_in_scope", n_random, 5)
     if floats:
         ctx.assume("S3: %d float accumulations iterate hash-ordered operands (%s ...): sums are order-independent up to rounding and exact for unweighted graphs (integers < 2^53); a rounding flip of a comparison is conceivable for irrational weight ratios" % (len(floats), "; ".join(floats[:4])))
     # consumers of functions returning hash-ordered sequences
